@@ -296,7 +296,11 @@ CapRefines(s, d, t) ==
            d0 == IF t.c.dir = "fwd" THEN d ELSE s
            d1 == IF t.c.dir = "fwd" THEN t.d ELSE t.s
        IN (d0.live /\ d1.live) =>
-            /\ (Core!StepRel("xfer", Len(s0.e), Len(d0.e), d0.cap, Len(d1.e), d1.cap) \/ Core!StepRel("same", 0, Len(d0.e), d0.cap, Len(d1.e), d1.cap))
+            /\ \/ Core!StepRel("xfer", Len(s0.e), Len(d0.e), d0.cap, Len(d1.e), d1.cap)
+               \/ Core!StepRel("same", 0, Len(d0.e), d0.cap, Len(d1.e), d1.cap)
+               \* a destination that refuses single values (push policy, no-nesting) receives the admitted ones: element-wise growth
+               \/ /\ (d0.haspol \/ "nnest" \in d0.opts)
+                  /\ \E a \in 0..Len(s0.e) : Core!StepRel("grow", a, Len(d0.e), d0.cap, Len(d1.e), d1.cap)
             /\ ((s0.live /\ Usable(d0) /\ t.c.form # "foreign" /\ ~d0.haspol /\ "nnest" \notin d0.opts)
                   => Core!StepRel("xfer", Len(s0.e), Len(d0.e), d0.cap, Len(d1.e), d1.cap))
   /\ (t.on = "st" /\ t.s.live => (Obs(t.s).cap = Core!CapOf(t.s.cap) /\ Obs(t.s).avail = Core!AvailOf(Len(t.s.e), t.s.cap)
